@@ -20,6 +20,7 @@ package datasource
 import (
 	"database/sql"
 	"reflect"
+	"strconv"
 )
 
 type nullTime = sql.NullTime
@@ -120,8 +121,53 @@ func DeepEqual(x, y interface{}) bool {
 	if okx && oky {
 		return flx == fly
 	}
+	// a DECIMAL comes out of the driver as its text and out of an image as a number: the same value
+	// when the text is that number. (Two texts are compared as texts: '007' is not '7'.)
+	if okx != oky {
+		number, text := flx, typy
+		if oky {
+			number, text = fly, typx
+		}
+		if parsed, ok := parseNumericText(text); ok {
+			return parsed == number
+		}
+		return false
+	}
+
+	// a binary value comes out of the driver as text holding its bytes and out of an image as a byte slice
+	if bx, ok := bytesOf(typx); ok {
+		if by, ok := bytesOf(typy); ok && (typx.Kind() != typy.Kind()) {
+			return string(bx) == string(by)
+		}
+	}
 
 	return reflect.DeepEqual(typx.Interface(), typy.Interface())
+}
+
+// bytesOf reads a string or a byte slice as bytes
+func bytesOf(val reflect.Value) ([]byte, bool) {
+	switch {
+	case val.Kind() == reflect.String:
+		return []byte(val.String()), true
+	case val.Kind() == reflect.Slice && val.Type().Elem().Kind() == reflect.Uint8:
+		return val.Bytes(), true
+	}
+	return nil, false
+}
+
+// parseNumericText reads a string or byte slice that is the text of a number
+func parseNumericText(val reflect.Value) (float64, bool) {
+	var text string
+	switch {
+	case val.Kind() == reflect.String:
+		text = val.String()
+	case val.Kind() == reflect.Slice && val.Type().Elem().Kind() == reflect.Uint8:
+		text = string(val.Bytes())
+	default:
+		return 0, false
+	}
+	f, err := strconv.ParseFloat(text, 64)
+	return f, err == nil
 }
 
 func parseFloatIfOk(val reflect.Value) (float64, bool) {
